@@ -1142,3 +1142,203 @@ func extraC05ErrorWriterStatus(c *Ctx, r *Report) {
 	addMutants(Mutant{Prop: "C05", Name: "errorwriter-defaults-status", File: "internal/adapter/translator/anthropic/translator.go", Rule: "C05-R9",
 		Old: "	w.WriteHeader(statusCode)\n\n	if encErr := json.NewEncoder(w).Encode(errorResp)", New: "	if errorType == \"api_error\" {\n		statusCode = http.StatusInternalServerError\n	}\n	w.WriteHeader(statusCode)\n\n	if encErr := json.NewEncoder(w).Encode(errorResp)"})
 }
+
+// ---------- C12-R8 / C13-R7: translated bodies and per-stream state do not live in pooled memory ----------
+func init() {
+	registerExtra("C12", func(c *Ctx, r *Report) {
+		poolEscapeScoped(c, r, "C12-R8", "in the translation handlers and the translator, no alias of a pooled object (its bytes, sub-slices, results of bytes.Trim*/Split*, readers over it) is returned, stored or captured beyond the Put: the translated upstream body must not be rewritten by the next request that borrows the same buffer", []string{pkgHandlers, pkgAnthropic})
+	})
+}
+
+func poolEscapeScoped(c *Ctx, r *Report, rule, text string, pkgs []string) {
+	r.Rule(rule, text, 0)
+	n := 0
+	for _, f := range c.Funcs {
+		if f.Parent() != nil {
+			continue
+		}
+		in := false
+		for _, p := range pkgs {
+			if strings.HasSuffix(fnPkgPath(f), p) {
+				in = true
+			}
+		}
+		if !in {
+			continue
+		}
+		var gets []ssa.Value
+		eachInstr(f, func(i ssa.Instruction) {
+			if v, ok := isPoolGet(i); ok {
+				gets = append(gets, v)
+			}
+		})
+		if len(gets) == 0 || !hasPut(c, f) {
+			continue
+		}
+		for _, gv := range gets {
+			n++
+			pe := &poolEscape{c: c, alias: map[ssa.Value]bool{}}
+			pe.propagate(f, []ssa.Value{gv}, 3)
+			pe.scanEscapes(f, 3)
+			key := fname(f) + ":pool-borrow"
+			if len(pe.found) > 0 {
+				r.Bad(rule, key, gv.(ssa.Instruction).Pos(), "memory of a pooled object stays reachable after it is returned to the pool: a concurrent request that borrows the same object overwrites bytes this request still sends upstream", pe.found...)
+			} else {
+				r.OK(rule, key, gv.(ssa.Instruction).Pos(), "no alias outlives the Put")
+			}
+		}
+	}
+	if n == 0 {
+		r.Triv(rule, "pool-borrows", token.NoPos, "no function of these packages borrows from a pool and puts back")
+	}
+}
+
+// ---------- pooled structs are reset completely (C18-R10, C13-R7, C15-R7) ----------
+func init() {
+	registerExtra("C18", func(c *Ctx, r *Report) { pooledResetComplete(c, r, "C18-R10") })
+	registerExtra("C13", func(c *Ctx, r *Report) { pooledResetComplete(c, r, "C13-R7") })
+	registerExtra("C15", func(c *Ctx, r *Report) { pooledResetComplete(c, r, "C15-R7") })
+}
+
+func pooledResetComplete(c *Ctx, r *Report, rule string) {
+	r.Rule(rule, "every struct type whose values are recycled through a pool (pool.NewLitePool[*T]) has a Reset method that writes every one of its fields (assignment, re-slice to [:0], clear): a field left as the previous user set it — a client-disconnected flag, a finish reason, a header map — leaks from one request or stream into the next", 2)
+	seen := map[*types.Named]bool{}
+	n := 0
+	for _, f := range c.Funcs {
+		if !c.inRepo(f) {
+			continue
+		}
+		eachInstr(f, func(in ssa.Instruction) {
+			cc := getCall(in)
+			if cc == nil {
+				return
+			}
+			sc := cc.StaticCallee()
+			if sc == nil || !strings.HasPrefix(sc.Name(), "NewLitePool") && !strings.HasPrefix(sc.Name(), "NewPool") {
+				return
+			}
+			for _, ta := range sc.TypeArgs() {
+				pt, ok := ta.(*types.Pointer)
+				if !ok {
+					continue
+				}
+				nt, ok := types.Unalias(pt.Elem()).(*types.Named)
+				if !ok || nt.Obj().Pkg() == nil || !strings.HasPrefix(nt.Obj().Pkg().Path(), modPath) || seen[nt] {
+					continue
+				}
+				st, ok := nt.Underlying().(*types.Struct)
+				if !ok {
+					continue
+				}
+				seen[nt] = true
+				n++
+				key := strings.TrimPrefix(nt.Obj().Pkg().Path(), modPath+"/") + "." + nt.Obj().Name() + ":Reset-complete"
+				sel := c.Prog.MethodSets.MethodSet(types.NewPointer(nt)).Lookup(nt.Obj().Pkg(), "Reset")
+				var rs *ssa.Function
+				if sel != nil {
+					rs = c.Prog.MethodValue(sel)
+				}
+				if rs == nil || rs.Blocks == nil {
+					if st.NumFields() == 0 {
+						r.Triv(rule, key, in.Pos(), "no fields")
+					} else {
+						r.Bad(rule, key, in.Pos(), "a struct with state is recycled through a pool but has no Reset method: whatever the previous user stored in it is seen by the next one")
+					}
+					continue
+				}
+				written := map[int]bool{}
+				eachInstr(rs, func(i2 ssa.Instruction) {
+					switch x := i2.(type) {
+					case *ssa.Store:
+						if fa, ok := x.Addr.(*ssa.FieldAddr); ok && fa.X == ssa.Value(rs.Params[0]) {
+							written[fa.Field] = true
+						}
+						if x.Addr == ssa.Value(rs.Params[0]) { // *s = T{}
+							for i := 0; i < st.NumFields(); i++ {
+								written[i] = true
+							}
+						}
+					case *ssa.Call:
+						// clear(s.m), s.buf.Reset(), s.m.Clear()
+						for _, a := range x.Call.Args {
+							if ld, ok := a.(*ssa.UnOp); ok {
+								a = ld.X
+							}
+							if fa, ok := a.(*ssa.FieldAddr); ok && fa.X == ssa.Value(rs.Params[0]) {
+								nm := describeCall(&x.Call).Name
+								if bi, isB := x.Call.Value.(*ssa.Builtin); isB {
+									nm = bi.Name()
+								}
+								if nm == "clear" || nm == "Reset" || nm == "Clear" || nm == "Truncate" {
+									written[fa.Field] = true
+								}
+							}
+						}
+					}
+				})
+				var missing []string
+				for i := 0; i < st.NumFields(); i++ {
+					if !written[i] {
+						missing = append(missing, st.Field(i).Name())
+					}
+				}
+				if len(missing) > 0 {
+					r.Bad(rule, key, rs.Pos(), "Reset leaves "+strings.Join(missing, ", ")+" as the previous user set it: the pooled value carries that state into the next request or stream")
+				} else {
+					r.OK(rule, key, rs.Pos(), fmt.Sprintf("Reset writes all %d fields", st.NumFields()))
+				}
+			}
+		})
+	}
+	if n == 0 {
+		r.Undecided(rule, "pooled-struct-types", token.NoPos, "no pool of struct pointers found")
+	}
+	if rule == "C18-R10" {
+		addMutants(Mutant{Prop: "C18", Name: "pooled-reset-incomplete", File: "internal/adapter/proxy/olla/service.go", Rule: "C18-R10",
+			Old: "	e.code = 0\n	e.allocated = false\n", New: "	e.code = 0\n"})
+	}
+}
+
+// ---------- Write(p) does not retain p (C13-R8, C02-R9) ----------
+func init() {
+	registerExtra("C13", func(c *Ctx, r *Report) { writersDoNotRetain(c, r, "C13-R8") })
+	registerExtra("C02", func(c *Ctx, r *Report) { writersDoNotRetain(c, r, "C02-R9") })
+}
+
+func writersDoNotRetain(c *Ctx, r *Report, rule string) {
+	r.Rule(rule, "every repo type's Write(p []byte) honours the io.Writer contract `Write must not retain p`: no alias of p (p itself, a sub-slice, a bytes.Buffer/Reader built over it) is stored in the receiver, a global or a channel — the proxy engines hand their pooled read buffer to Write and overwrite it on the next read, so a recorder that keeps p records garbage for every body larger than one read", 4)
+	n := 0
+	for _, f := range c.Funcs {
+		if f.Parent() != nil || f.Name() != "Write" || f.Signature.Recv() == nil || !c.inRepo(f) || f.Blocks == nil {
+			continue
+		}
+		sig := f.Signature
+		if sig.Params().Len() != 1 || sig.Params().At(0).Type().String() != "[]byte" || sig.Results().Len() != 2 {
+			continue
+		}
+		n++
+		p := f.Params[len(f.Params)-1]
+		pe := &poolEscape{c: c, alias: map[ssa.Value]bool{}}
+		pe.propagate(f, []ssa.Value{p}, 2)
+		pe.scanEscapes(f, 2)
+		key := fname(f) + ":does-not-retain-p"
+		var kept []string
+		for _, s := range pe.found {
+			if !strings.Contains(s, "returned") {
+				kept = append(kept, s)
+			}
+		}
+		if len(kept) > 0 {
+			r.Bad(rule, key, f.Pos(), "Write keeps a reference to the caller's slice: the caller (a proxy engine streaming through a pooled buffer) reuses that memory for the next read, so what was recorded changes afterwards", kept...)
+		} else {
+			r.OK(rule, key, f.Pos(), "p is only read or copied")
+		}
+	}
+	if n == 0 {
+		r.Undecided(rule, "writers", token.NoPos, "no Write([]byte) method found")
+	}
+	if rule == "C13-R8" {
+		addMutants(Mutant{Prop: "C13", Name: "recorder-adopts-first-write", File: "internal/app/handlers/handler_translation.go", Rule: "C13-R8",
+			Old: "func (r *responseRecorder) Write(data []byte) (int, error) {\n", New: "func (r *responseRecorder) Write(data []byte) (int, error) {\n	if r.body.Len() == 0 && len(data) > 4096 {\n		r.body = bytes.NewBuffer(data)\n		return len(data), nil\n	}\n"})
+	}
+}
